@@ -14,7 +14,7 @@ package trace
 //@   requires t != nil && t.next != nil && req != nil
 //@   modifies everything
 //@   ensures handler_exactly_once: calls(t.next.ServeHTTP) == 1
-//@   ensures writes_nothing_itself: calls(w.WriteHeader) == 0 && calls(w.Write) == 0
+//@   ensures writes_nothing_itself: calls(w.WriteHeader) == 0 && calls(w.Write) == 0 && calls(t.errHandler.ServeHTTP) == 0
 //@   at_call t.next.ServeHTTP forwarding_writer_same_request: arg1 == req && istype(arg0, "*utils.ProxyWriter") && asref(payload(arg0), "*utils.ProxyWriter").w == w
 
 //@ func (*Tracer).newRecord
